@@ -346,4 +346,24 @@ CHECKS = {
             "code between two yield points touches only goroutine-local state or state protected by a scheduler-granted lock",
         ],
     },
+    "C24": {
+        "level": "exploration",
+        "engine": "microsched",
+        "rule": ("unit part (pool-unit): newPool(cap 1-3) with stub wires, 2-7 users each doing 1-4 Acquire(context live / deadline 1-500 ms / cancelled at a seeded step) - hold "
+                 "0-2 s of fake time - Store, wires that break while held, failing dials, idle clean-up timer, Close at a seeded step; every acquisition of the pool lock is "
+                 "granted by the scheduler and all yield seams of pool.go are decisions (including the window between the wait-condition check and cond.Wait); oracle: at most "
+                 "cap wires in use, no wire handed to two holders, every made wire closed by the time the pool is closed, Acquire returns within 1 s of its context's end "
+                 "(time only advances when nothing can run), after Close no live wire is handed out, no Acquire/Store hangs. system part (pool-system): the real mux with "
+                 "blocking commands, DoStream/DoMultiStream, Dedicated, deadlines, cancellations and connection faults; oracle: open connections <= 1 + 2*BlockingPoolSize, "
+                 "after healing two rounds of 2*size+2 sequential calls per path are served, and in-package size == idle for both pools once nothing runs; "
+                 "non-trivial = more users than connections (and a lock was contended); distinct = distinct event-log hash"),
+        "parts": [
+            {"module": "rueidis", "scenario": "pool-unit", "quick": 12000, "thorough": 1000000},
+            {"module": "rueidis", "scenario": "pool-system", "quick": 5000, "thorough": 400000},
+        ],
+        "expected_probes": ["more-users-than-connections", "closed-during-run", "pool-probes-ran"],
+        "components": {"real": "pool.go unmodified with stub wires (unit part); all of package rueidis (system part)",
+                       "stubs": {"wires (unit part)": "stubWire implementing the wire interface", "pool lock": "scheduler-granted locker through the verif NewPoolLocker seam", "network/server (system part)": "simnet + fakeredis"}},
+        "assumptions": ["cluster and sentinel front-ends use the same mux and pools and are not run separately"],
+    },
 }
